@@ -5,7 +5,7 @@ Import ListNotations.
 Open Scope Z_scope.
 
 Section Loop.
-  Variables (clk : nat -> Z) (T : Z) (ws : list worker).
+  Variables (rule : flag_rule) (clk : nat -> Z) (T : Z) (ws : list worker).
 
   Definition within (j : nat) : Prop := clk j - clk 0%nat <= T.
 
@@ -18,14 +18,14 @@ Section Loop.
         within (exit_poll o) /\ any_alive ws (clk (exit_poll o)) = false /\ timed_out o = false /\
         killed o = all_false ws /\ joined o = all_true ws /\ shared o = flat_map all_blocks ws
     | ExitDeadline =>
-        ~ within (exit_poll o) /\ timed_out o = true /\
+        ~ within (exit_poll o) /\ timed_out o = flag_at rule ws (clk (exit_poll o)) /\
         killed o = map (fun w => alive w (clk (exit_poll o))) ws /\ joined o = all_true ws /\
         shared o = flat_map (fun w => delivered w (clk (exit_poll o))) ws
     | OutOfFuel => exit_poll o = (i + fuel)%nat /\ timed_out o = false
     | _ => False
     end.
 
-  Lemma poll_spec : forall fuel i, poll_post i fuel (poll fuel clk T ws i).
+  Lemma poll_spec : forall fuel i, poll_post i fuel (poll rule fuel clk T ws i).
   Proof.
     induction fuel as [|f IH]; intros i; simpl.
     - unfold poll_post. simpl. repeat split; intros; lia.
@@ -34,7 +34,7 @@ Section Loop.
         * specialize (IH (S i)). unfold poll_post in *. destruct IH as (H1 & H2 & H3).
           split; [lia|]. split.
           -- intros j Hj. destruct (Nat.eq_dec j i) as [->|N]; [split; assumption|]. apply H2. lia.
-          -- destruct (how (poll f clk T ws (S i))); auto. destruct H3. split; auto. lia.
+          -- destruct (how (poll rule f clk T ws (S i))); auto. destruct H3. split; auto. lia.
         * unfold poll_post. simpl. repeat split; intros; auto; lia.
       + apply Z.leb_gt in E. unfold poll_post, within. simpl. repeat split; intros; auto; lia.
   Qed.
@@ -49,10 +49,10 @@ Proof.
   - specialize (IH ltac:(lia)). specialize (Hn i ltac:(lia)). nia.
 Qed.
 
-Lemma poll_terminates clk step T ws : ClockOK clk step ->
-  how (poll (fuel_for T step) clk T ws 1) <> OutOfFuel.
+Lemma poll_terminates rule clk step T ws : ClockOK clk step ->
+  how (poll rule (fuel_for T step) clk T ws 1) <> OutOfFuel.
 Proof.
-  intros C E. pose proof (poll_spec clk T ws (fuel_for T step) 1%nat) as P.
+  intros C E. pose proof (poll_spec rule clk T ws (fuel_for T step) 1%nat) as P.
   unfold poll_post in P. rewrite E in P. destruct P as (_ & P & (Ee & _)).
   set (fu := fuel_for T step) in *.
   assert (Hf : (1 <= fu < 1 + fu)%nat) by (unfold fu, fuel_for; lia).
@@ -94,14 +94,14 @@ Proof.
 Qed.
 
 (* whatever happens, the shared list only holds blocks that the complete search produces *)
-Lemma shared_incl clk step T ws :
-  incl (shared (run_parallel clk step T ws)) (flat_map all_blocks ws).
+Lemma shared_incl rule clk step T ws :
+  incl (shared (run_parallel rule clk step T ws)) (flat_map all_blocks ws).
 Proof.
   unfold run_parallel. destruct (T =? -1).
   - destruct (forallb terminates ws); simpl; [apply incl_refl | intros x []].
-  - pose proof (poll_spec clk T ws (fuel_for T step) 1%nat) as P. unfold poll_post in P.
+  - pose proof (poll_spec rule clk T ws (fuel_for T step) 1%nat) as P. unfold poll_post in P.
     destruct P as (_ & _ & P).
-    destruct (how (poll (fuel_for T step) clk T ws 1)) eqn:E; try contradiction.
+    destruct (how (poll rule (fuel_for T step) clk T ws 1)) eqn:E; try contradiction.
     + destruct P as (_ & _ & _ & _ & _ & ->). apply incl_refl.
     + destruct P as (_ & _ & _ & _ & ->). apply flat_map_incl. intros; apply delivered_incl.
     + (* OutOfFuel delivers nothing *)
@@ -114,17 +114,17 @@ Qed.
 Definition AllDoneAt (clk : nat -> Z) (T : Z) (ws : list worker) (i : nat) : Prop :=
   (1 <= i)%nat /\ (forall j, (1 <= j <= i)%nat -> clk j - clk 0%nat <= T) /\ any_alive ws (clk i) = false.
 
-Lemma poll_cases clk step T ws : ClockOK clk step ->
-  let o := poll (fuel_for T step) clk T ws 1 in
-  poll_post clk T ws 1 (fuel_for T step) o /\ (how o = ExitAllDone \/ how o = ExitDeadline).
+Lemma poll_cases rule clk step T ws : ClockOK clk step ->
+  let o := poll rule (fuel_for T step) clk T ws 1 in
+  poll_post rule clk T ws 1 (fuel_for T step) o /\ (how o = ExitAllDone \/ how o = ExitDeadline).
 Proof.
-  intros C o. pose proof (poll_spec clk T ws (fuel_for T step) 1%nat) as P. split; [exact P|].
-  pose proof (poll_terminates clk step T ws C) as N. fold o in N, P.
+  intros C o. pose proof (poll_spec rule clk T ws (fuel_for T step) 1%nat) as P. split; [exact P|].
+  pose proof (poll_terminates rule clk step T ws C) as N. fold o in N, P.
   unfold poll_post in P. destruct (how o); try tauto; destruct P as (_ & _ & []).
 Qed.
 
 Lemma flag_iff_lemma clk step T ws : ClockOK clk step ->
-  let o := run_parallel clk step T ws in
+  let o := run_parallel FlagOnExhaustion clk step T ws in
   (timed_out o = true <-> how o = ExitDeadline) /\
   (timed_out o = true <->
      T <> -1 /\ forall i, (1 <= i)%nat -> (forall j, (1 <= j <= i)%nat -> clk j - clk 0%nat <= T) ->
@@ -132,8 +132,8 @@ Lemma flag_iff_lemma clk step T ws : ClockOK clk step ->
 Proof.
   intros C. unfold run_parallel. destruct (T =? -1) eqn:ET.
   - apply Z.eqb_eq in ET. destruct (forallb terminates ws); simpl; split; split; try discriminate; try tauto.
-  - apply Z.eqb_neq in ET. destruct (poll_cases clk step T ws C) as (P & K). cbv zeta in *.
-    set (o := poll (fuel_for T step) clk T ws 1) in *. unfold poll_post in P. destruct P as (P1 & P2 & P3).
+  - apply Z.eqb_neq in ET. destruct (poll_cases FlagOnExhaustion clk step T ws C) as (P & K). cbv zeta in *.
+    set (o := poll FlagOnExhaustion (fuel_for T step) clk T ws 1) in *. unfold poll_post in P. destruct P as (P1 & P2 & P3).
     destruct K as [K|K]; rewrite K in P3.
     + destruct P3 as (W & A & F & _). rewrite F. split; split; try discriminate; try congruence.
       intros (_ & H). specialize (H (exit_poll o) P1).
@@ -146,8 +146,8 @@ Proof.
       apply P2. lia.
 Qed.
 
-Lemma complete_lemma clk step T ws :
-  let o := run_parallel clk step T ws in
+Lemma complete_lemma rule clk step T ws :
+  let o := run_parallel rule clk step T ws in
   (T = -1 -> forallb terminates ws = true ->
      how o = ExitUntimed /\ timed_out o = false /\ shared o = flat_map all_blocks ws /\ killed o = all_false ws) /\
   (T <> -1 -> ClockOK clk step -> (exists i, AllDoneAt clk T ws i) ->
@@ -156,8 +156,8 @@ Proof.
   unfold run_parallel. split.
   - intros -> F. simpl. rewrite F. simpl. auto.
   - intros N C (i & Hi & Hall & A). apply Z.eqb_neq in N. rewrite N.
-    destruct (poll_cases clk step T ws C) as (P & K). cbv zeta in *.
-    set (o := poll (fuel_for T step) clk T ws 1) in *. unfold poll_post in P. destruct P as (P1 & P2 & P3).
+    destruct (poll_cases rule clk step T ws C) as (P & K). cbv zeta in *.
+    set (o := poll rule (fuel_for T step) clk T ws 1) in *. unfold poll_post in P. destruct P as (P1 & P2 & P3).
     destruct K as [K|K]; rewrite K in P3.
     + destruct P3 as (_ & _ & F & Kd & _ & S). auto.
     + exfalso. destruct P3 as (W & _).
@@ -167,17 +167,17 @@ Proof.
 Qed.
 
 (* the search finishes in time -- with the margin of one poll interval -- then no flag *)
-Lemma in_time_lemma clk step dmax T ws :
+Lemma in_time_lemma rule clk step dmax T ws :
   ClockOK clk step -> T <> -1 ->
   (forall i, clk (S i) <= clk i + dmax) ->
   clk 1%nat - clk 0%nat <= T ->
   (forall w, In w ws -> exists f, w_fin w = Some f /\ f + dmax <= clk 0%nat + T) ->
-  let o := run_parallel clk step T ws in
+  let o := run_parallel rule clk step T ws in
   timed_out o = false /\ shared o = flat_map all_blocks ws /\ killed o = all_false ws.
 Proof.
   intros C N D H1 Hf. unfold run_parallel. apply Z.eqb_neq in N. rewrite N.
-  destruct (poll_cases clk step T ws C) as (P & K). cbv zeta in *.
-  set (o := poll (fuel_for T step) clk T ws 1) in *. unfold poll_post in P. destruct P as (P1 & P2 & P3).
+  destruct (poll_cases rule clk step T ws C) as (P & K). cbv zeta in *.
+  set (o := poll rule (fuel_for T step) clk T ws 1) in *. unfold poll_post in P. destruct P as (P1 & P2 & P3).
   destruct K as [K|K]; rewrite K in P3.
   - destruct P3 as (_ & _ & F & Kd & _ & S). auto.
   - exfalso. destruct P3 as (W & _). unfold within in W.
@@ -189,22 +189,22 @@ Proof.
     specialize (D e). lia.
 Qed.
 
-Lemma time_bounded_lemma clk step dmax T ws :
+Lemma time_bounded_lemma rule clk step dmax T ws :
   ClockOK clk step -> 0 <= T ->
   (forall i, clk (S i) <= clk i + dmax) ->
-  clk (exit_poll (run_parallel clk step T ws)) - clk 0%nat <= T + dmax.
+  clk (exit_poll (run_parallel rule clk step T ws)) - clk 0%nat <= T + dmax.
 Proof.
   intros C HT D. unfold run_parallel. destruct (T =? -1) eqn:N; [apply Z.eqb_eq in N; lia|].
-  destruct (poll_cases clk step T ws C) as (P & K). cbv zeta in *.
-  set (o := poll (fuel_for T step) clk T ws 1) in *. unfold poll_post in P. destruct P as (P1 & P2 & P3).
+  destruct (poll_cases rule clk step T ws C) as (P & K). cbv zeta in *.
+  set (o := poll rule (fuel_for T step) clk T ws 1) in *. unfold poll_post in P. destruct P as (P1 & P2 & P3).
   destruct (Nat.eq_dec (exit_poll o) 1) as [E1|E1].
   - rewrite E1. specialize (D 0%nat). lia.
   - destruct (exit_poll o) as [|e] eqn:Ee; [lia|].
     destruct (P2 e ltac:(lia)) as (We & _). unfold within in We. specialize (D e). lia.
 Qed.
 
-Lemma killed_or_joined_lemma clk step T ws :
-  let o := run_parallel clk step T ws in
+Lemma killed_or_joined_lemma rule clk step T ws :
+  let o := run_parallel rule clk step T ws in
   how o <> Hangs -> how o <> OutOfFuel ->
   joined o = all_true ws /\
   forall n w, nth_error ws n = Some w ->
@@ -215,9 +215,9 @@ Proof.
     intros n w Hn. right. split.
     + unfold all_false. erewrite map_nth_error; eauto.
     + rewrite forallb_forall in F. apply F. eapply nth_error_In; eauto.
-  - pose proof (poll_spec clk T ws (fuel_for T step) 1%nat) as P. unfold poll_post in P.
+  - pose proof (poll_spec rule clk T ws (fuel_for T step) 1%nat) as P. unfold poll_post in P.
     destruct P as (_ & _ & P). cbv zeta.
-    destruct (how (poll (fuel_for T step) clk T ws 1)) eqn:E; try contradiction; try congruence; intros _ _.
+    destruct (how (poll rule (fuel_for T step) clk T ws 1)) eqn:E; try contradiction; try congruence; intros _ _.
     + destruct P as (_ & A & _ & Kd & J & _). split; auto. intros n w Hn. right. rewrite Kd. split.
       * unfold all_false. erewrite map_nth_error; eauto.
       * pose proof (any_alive_false ws _ A w (nth_error_In _ _ Hn)) as Aw.
@@ -229,9 +229,100 @@ Proof.
 Qed.
 
 Lemma timeout_zero_lemma clk step ws : clk 0%nat < clk 1%nat ->
-  timed_out (run_parallel clk step 0 ws) = true /\ how (run_parallel clk step 0 ws) = ExitDeadline.
+  timed_out (run_parallel FlagOnExhaustion clk step 0 ws) = true /\ how (run_parallel FlagOnExhaustion clk step 0 ws) = ExitDeadline.
 Proof.
   intros H. unfold run_parallel. simpl (0 =? -1). cbv iota.
   unfold fuel_for. rewrite Zdiv_0_l. simpl.
   destruct (clk 1%nat - clk 0%nat <=? 0) eqn:E; [apply Z.leb_le in E; lia|]. simpl. auto.
+Qed.
+
+(* ------------------------------------------------------------------ the repaired rule: flag only when a worker is killed *)
+Lemma existsb_map_id {A} (f : A -> bool) l : existsb (fun b : bool => b) (map f l) = existsb f l.
+Proof. induction l; simpl; congruence. Qed.
+
+Lemma existsb_all_false (ws : list worker) : existsb (fun b : bool => b) (all_false ws) = false.
+Proof. unfold all_false. induction ws; simpl; auto. Qed.
+
+(* on every exit: timed_out = "some worker was killed" *)
+Lemma flag_is_kill_lemma clk step T ws :
+  let o := run_parallel FlagOnKill clk step T ws in
+  timed_out o = existsb (fun b : bool => b) (killed o).
+Proof.
+  unfold run_parallel. destruct (T =? -1).
+  - destruct (forallb terminates ws); simpl; [rewrite existsb_all_false|]; reflexivity.
+  - cbv zeta. generalize 1%nat. induction (fuel_for T step) as [|f IH]; intros i; simpl; [reflexivity|].
+    destruct (clk i - clk 0%nat <=? T).
+    + destruct (any_alive ws (clk i)); [apply IH|]. simpl. rewrite existsb_all_false. reflexivity.
+    + simpl. rewrite existsb_map_id. reflexivity.
+Qed.
+
+Lemma map_all_false_inv (f : worker -> bool) ws :
+  map f ws = all_false ws -> forall w, In w ws -> f w = false.
+Proof.
+  unfold all_false. induction ws as [|a r IH]; simpl; intros H w Hw; [contradiction|].
+  injection H as H1 H2. destruct Hw as [<-|Hw]; [exact H1|]. apply IH; assumption.
+Qed.
+
+Lemma flat_map_ext_in {A B} (f g : A -> list B) l :
+  (forall a, In a l -> f a = g a) -> flat_map f l = flat_map g l.
+Proof.
+  induction l as [|a r IH]; simpl; intros H; auto. rewrite H by auto. rewrite IH; auto.
+Qed.
+
+(* whatever the rule: no flag => the shared list is complete; nobody killed => complete *)
+Lemma nobody_killed_complete_lemma rule clk step T ws :
+  let o := run_parallel rule clk step T ws in
+  how o <> Hangs -> how o <> OutOfFuel -> killed o = all_false ws ->
+  shared o = flat_map all_blocks ws.
+Proof.
+  unfold run_parallel. destruct (T =? -1).
+  - destruct (forallb terminates ws); simpl; congruence.
+  - pose proof (poll_spec rule clk T ws (fuel_for T step) 1%nat) as P. unfold poll_post in P.
+    destruct P as (_ & _ & P). cbv zeta.
+    destruct (how (poll rule (fuel_for T step) clk T ws 1)) eqn:E; try contradiction; try congruence; intros _ _ K.
+    + destruct P as (_ & _ & _ & _ & _ & S). exact S.
+    + destruct P as (_ & _ & Kd & _ & S). rewrite S. rewrite Kd in K.
+      apply flat_map_ext_in. intros w Hw. unfold delivered.
+      rewrite (map_all_false_inv _ ws K w Hw). reflexivity.
+Qed.
+
+Lemma no_flag_complete_lemma clk step T ws :
+  let o := run_parallel FlagOnKill clk step T ws in
+  how o <> Hangs -> how o <> OutOfFuel -> timed_out o = false ->
+  killed o = all_false ws /\ shared o = flat_map all_blocks ws.
+Proof.
+  intros o H1 H2 F.
+  assert (K : killed o = all_false ws).
+  { subst o. revert H1 H2 F. unfold run_parallel. destruct (T =? -1).
+    - destruct (forallb terminates ws); simpl; congruence.
+    - pose proof (poll_spec FlagOnKill clk T ws (fuel_for T step) 1%nat) as P. unfold poll_post in P.
+      destruct P as (_ & _ & P).
+      destruct (how (poll FlagOnKill (fuel_for T step) clk T ws 1)) eqn:E; try contradiction; try congruence; intros _ _ F.
+      + destruct P as (_ & _ & _ & Kd & _). exact Kd.
+      + destruct P as (_ & Fl & Kd & _). rewrite Kd. rewrite Fl in F. simpl in F.
+        unfold all_false. apply map_ext_in. intros w Hw. apply (any_alive_false ws _ F w Hw). }
+  split; [exact K|]. apply nobody_killed_complete_lemma; assumption.
+Qed.
+
+(* the flag is set exactly when the loop ran into its else: branch AND found a live worker there *)
+Lemma flag_on_kill_iff_lemma clk step T ws : ClockOK clk step ->
+  let o := run_parallel FlagOnKill clk step T ws in
+  timed_out o = true <-> how o = ExitDeadline /\ any_alive ws (clk (exit_poll o)) = true.
+Proof.
+  intros C. unfold run_parallel. destruct (T =? -1) eqn:ET.
+  - destruct (forallb terminates ws); simpl; split; try discriminate; intros [? _]; discriminate.
+  - destruct (poll_cases FlagOnKill clk step T ws C) as (P & K). cbv zeta in *.
+    set (o := poll FlagOnKill (fuel_for T step) clk T ws 1) in *. unfold poll_post in P. destruct P as (_ & _ & P3).
+    destruct K as [K|K]; rewrite K in P3.
+    + destruct P3 as (_ & _ & F & _). rewrite F. split; [discriminate|]. intros [? _]. congruence.
+    + destruct P3 as (_ & F & _). rewrite F. simpl. split; auto. intros [_ A]. exact A.
+Qed.
+
+(* timeout 0 under the repaired rule: the flag only reports workers that were alive *)
+Lemma timeout_zero_kill_lemma clk step ws : clk 0%nat < clk 1%nat ->
+  timed_out (run_parallel FlagOnKill clk step 0 ws) = any_alive ws (clk 1%nat).
+Proof.
+  intros H. unfold run_parallel. simpl (0 =? -1). cbv iota.
+  unfold fuel_for. rewrite Zdiv_0_l. simpl.
+  destruct (clk 1%nat - clk 0%nat <=? 0) eqn:E; [apply Z.leb_le in E; lia|]. simpl. reflexivity.
 Qed.
